@@ -7,6 +7,7 @@ toolchain go1.24.1
 require (
 	buf.build/gen/go/bufbuild/protovalidate/protocolbuffers/go v1.36.6-20250307204501-0409229c3780.1
 	github.com/bufbuild/protocompile v0.14.1
+	github.com/bufbuild/protovalidate-go v0.9.2
 	github.com/pentops/j5 v0.0.0
 	github.com/pentops/log.go v0.0.0-20250304233315-e0210b7a6dc3
 	github.com/shopspring/decimal v1.4.0
@@ -19,7 +20,6 @@ require (
 	buf.build/go/protoyaml v0.3.1 // indirect
 	cel.dev/expr v0.22.0 // indirect
 	github.com/antlr4-go/antlr/v4 v4.13.1 // indirect
-	github.com/bufbuild/protovalidate-go v0.9.2 // indirect
 	github.com/fatih/color v1.18.0 // indirect
 	github.com/google/cel-go v0.24.1 // indirect
 	github.com/google/uuid v1.6.0 // indirect
